@@ -188,7 +188,8 @@ def contour(prog, rep):
     if len(dcs) == 1:
         a = dcs[0][2][2]
         if len(a) >= 2 and a[0][0] == "col" and a[1][0] == "col" and a[0][1] == a[1][1] and (a[0][2], a[1][2]) == (("const", 0), ("const", 1)):
-            src = set(alts(a[0][1]))
+            from vstat.terms import top_alts
+            src = {v_ for _l, v_ in top_alts(a[0][1])}
             ok = src == {dc, comp}
             why = (f"design conditions must be the supplied array as given, or calculate_design_conditions(contour, swap_axis=swap_axis) when only requested; "
                    f"found {show(a[0][1])[:200]}")
